@@ -165,6 +165,20 @@ def monitor(ex, final):
                 raise V(ex, 'upgrade-packet-not-answered-with-noop', 'polling',
                         'session %d: %d UPGRADE packets accepted, %d NOOP received' % (
                             s.ord, n5, n6))
+        # ... and so is an UPGRADE frame on a session that began on WebSocket
+        if final and s.kind == 'websocket' and not s.upg_attempts and not s.vanished and \
+                not any(e == 'disconnect' for _, e, _ in evs) and not s.causes:
+            n5 = 0
+            for u in units:
+                d = u['e'].get('det')
+                if u['kind'] == 'frame' and u['eff'][0] == 'ok' and d and d['live'] and \
+                        d['settled_after'] and [p[0] for p in u['eff'][1]] == [5]:
+                    n5 += 1
+            n6 = sum(1 for (t, via, pt, payload, where) in s.received if pt == 6)
+            if n6 < n5:
+                raise V(ex, 'upgrade-packet-not-answered-with-noop', 'websocket',
+                        'session %d: %d UPGRADE frames accepted, %d NOOP received' % (
+                            s.ord, n5, n6))
         # required deliveries and per-type behaviour, for units issued at a quiet point
         order = [find_tag(a) for _, a in msgs]
         for u in units:
